@@ -80,7 +80,8 @@ def typed_arg(r, t, obj=None):
     if t == "[]byte":
         k = r.random()
         if k < 0.3:
-            return "ibtp:c1:s1,c2:s1,%d,%s,0" % (r.choice([1, 2]), r.choice(["req", "ok", "fail"]))
+            # (ibtpc: the IBTP carries a Content payload with a function name and arguments, as a pier's would)
+            return "%s:c1:s1,c2:s1,%d,%s,0" % (r.choice(["ibtp", "ibtp", "ibtpc"]), r.choice([1, 2]), r.choice(["req", "ok", "fail"]))
         if k < 0.6:
             return "addrs:" + ",".join(r.sample(["u0", "u1", "ca1", "ca2", "adm1", "interchain", "service", "appchain", "gov"], r.choice([0, 1, 2])))
         return "x:" + r.choice(["", "00", "7b7d", "5b5d", "ff" * 40])
@@ -548,6 +549,16 @@ def gen_c08(rng, n, tier):
         tags = {"c08"}
         nb = r.randint(2, 7)
         expect_h = 6
+        if r.random() < 0.15:
+            # the bridge into the EVM (InterBroker.InvokeInterchain / InvokeReceipt hand the IBTP's payload to an EVM call inside
+            # the contract call): by senders who can and who cannot pay for the transaction, alone and between other transactions
+            call = f"broker {r.choice(['InvokeInterchain', 'InvokeInterchain', 'InvokeReceipt'])} ibtpc:c1:s1,c2:s1,{r.choice([1, 2])},{r.choice(['req', 'ok', 'fail'])},0"
+            who = r.choice(["u0", "p0", "p1", "p0"])
+            txs = [f"bvm {who} {call}"]
+            if r.random() < 0.5:
+                txs = [f"xfer u1 u2 {r.choice([1, 5])}"] + txs + [f"bvm u1 store Set s:k s:v"]
+            ops.append("block " + " | ".join(txs))
+            tags.add("evm-bridge:" + ("unfunded" if who.startswith("p") else "funded"))
         for _b in range(nb):
             txs = []
             for _t in range(r.choice([1, 1, 2, 3, 5])):
